@@ -11,6 +11,8 @@
  *        P            explicit schedule point
  *        O<n>         aws_thread_call_once on once-flag n (1..3); the once-function contains a schedule point
  *        Z<ms>        aws_thread_current_sleep for <ms> virtual milliseconds
+ *        C+ / C-      (joinable threads) aws_thread_increment_unjoined_count / aws_thread_decrement_unjoined_count
+ *        S            (joinable threads) aws_thread_join on the thread's own handle: refused, and nothing changes
  *        V            the thread's view of itself: id (aws_thread_current_thread_id vs aws_thread_get_id of its own
  *                     aws_thread and of the main thread), name, aws_thread_current_sleep(1 ms) against the clock
  *   MAIN <op> ...                 ops of the scenario's main thread:
@@ -49,6 +51,7 @@ struct cbarg {
 static struct cbarg cbargs[MAXTH][MAXOPS * 2];
 
 static void launch(int j);
+static int launched[MAXTH];
 
 /* once-flags: re-armed for every execution (each execution is a process of its own, forked before the scenario runs) */
 #define NONCE 3
@@ -143,6 +146,39 @@ static void thread_fn(void *arg) {
             do_once(atoi(op + 1));
         } else if (op[0] == 'Z') {
             aws_thread_current_sleep((uint64_t)atoi(op + 1) * 1000000ull);
+        } else if (op[0] == 'C' && !d->managed) {
+            /* C+ / C- : this (joinable) thread counts itself among the threads join-all waits for, the way event-loop
+             * threads of dependent libraries do, and takes itself out again */
+            const char *nm = op[1] == '+' ? "CountInc" : "CountDec";
+            char ev[24];
+            snprintf(ev, sizeof(ev), "%sBegin", nm);
+            vh_begin(ev);
+            vh_int("thr", d->id);
+            vh_end();
+            if (op[1] == '+') {
+                aws_thread_increment_unjoined_count();
+            } else {
+                aws_thread_decrement_unjoined_count();
+            }
+            snprintf(ev, sizeof(ev), "%sEnd", nm);
+            vh_begin(ev);
+            vh_int("thr", d->id);
+            vh_end();
+        } else if (op[0] == 'S' && !d->managed) {
+            /* a join that must be refused: the thread on its own handle.  The handle stays what it was - the real join
+             * by the launcher comes later. */
+            for (int w = 0; w < 200 && !__atomic_load_n(&launched[d->id], __ATOMIC_ACQUIRE); ++w) {
+                aws_thread_current_sleep(1000000); /* the launcher is still filling in the handle */
+            }
+            if (!__atomic_load_n(&launched[d->id], __ATOMIC_ACQUIRE)) {
+                continue;
+            }
+            VS_TSAN_ACQUIRE(&launched[d->id]);
+            int rc = aws_thread_join(&d->thread);
+            vh_begin("SelfJoin");
+            vh_int("thr", d->id);
+            vh_int("rc", rc);
+            vh_end();
         } else if (op[0] == 'V') {
             aws_thread_id_t me = aws_thread_current_thread_id();
             struct aws_string *nm = NULL;
@@ -181,6 +217,8 @@ static void launch(int j) {
     vh_str("kind", d->managed ? "managed" : "manual");
     vh_end();
     int rc = aws_thread_launch(&d->thread, thread_fn, d, &opt);
+    VS_TSAN_RELEASE(&launched[j]);
+    __atomic_store_n(&launched[j], 1, __ATOMIC_RELEASE); /* the handle is complete: only now may the thread itself look at it */
     vh_begin("LaunchRet");
     vh_int("thr", j);
     vh_int("rc", rc);
@@ -229,6 +267,7 @@ static void scenario(char **lines, int nlines) {
         const char *op = mainops[i];
         if (strcmp(op, "JA") == 0) {
             uint64_t t0 = 0, t1 = 0;
+            long uj0 = vs_unforced_fires;
             aws_sys_clock_get_ticks(&t0);
             vh_begin("JoinAllBegin");
             vh_wide("t", t0);
@@ -240,6 +279,9 @@ static void scenario(char **lines, int nlines) {
             vh_int("rc", rc);
             vh_int("count", (long long)n);
             vh_wide("t", t1);
+            /* how often the virtual clock jumped under a runnable thread meanwhile: the library may then have read its
+             * starting time later than this harness did, and "returned by its deadline" cannot be judged from here */
+            vh_int("uj", vs_unforced_fires - uj0);
             vh_end();
         } else if (op[0] == 'T') {
             uint64_t ns = (uint64_t)atoi(op + 1) * 1000000ull;
